@@ -352,9 +352,10 @@ impl<'a> Run<'a> {
         });
         if ordered {
             if front != Some(c) {
+                let refused_before = self.bounded_cap.is_some() && w(|x| x.labels & lb::REFUSED != 0);
                 w(|x| {
                     x.violate(
-                        p(4),
+                        if refused_before { p(4) | p(15) } else { p(4) },
                         "C04/out-of-order",
                         format!("{what}: expected the output of child {front:?} next, got child {c}"),
                     )
@@ -576,7 +577,11 @@ impl<'a> Run<'a> {
             if self.owed() != 0 {
                 let o = self.owed();
                 // for the ordered collections this is also a failure to behave as a queue: the model's front was due
-                let pr = if s.is_ordered() { p(2) | p(4) } else { p(2) };
+                let mut pr = if s.is_ordered() { p(2) | p(4) } else { p(2) };
+                // C15: a refused / panicking push must not disturb the futures already held
+                if self.bounded_cap.is_some() && w(|x| x.labels & lb::REFUSED != 0) {
+                    pr |= p(15);
+                }
                 w(|x| {
                     x.violate(
                         pr,
@@ -743,7 +748,8 @@ impl<'a> Run<'a> {
                 );
             }
             // C13 A: bounded delay of a woken child
-            let n = (x.max_cap.max(x.held_count())) as u64;
+            // ordered subjects can spend a poll on a parked output without touching the ready queue
+            let n = (x.max_cap.max(x.held_count()) + x.max_owed) as u64;
             let b = (g + 1) * (n + 2) + 4;
             let seq = x.poll_seq;
             let mut late = None;
@@ -1123,6 +1129,9 @@ impl<'a> Run<'a> {
                     pushes_then: pu,
                 });
             }
+        }
+        if s.is_ordered() {
+            w(|x| x.max_owed = x.max_owed.max(owed as usize));
         }
         // population statistics
         let pop = if s.is_merge() { running } else { owed.max(running) };
